@@ -117,7 +117,7 @@ def linux_commands_wildcard_injection(context, config):
     vulnerable_funcs = ["chown", "chmod", "tar", "rsync"]
     if context.call_function_name_qual in config["shell"] or (
         context.call_function_name_qual in config["subprocess"]
-        and context.check_call_arg_value("shell", "True")
+        and injection_shell.has_shell(context)
     ):
         if context.call_args_count >= 1:
             call_argument = context.get_call_arg_at_position(0)
